@@ -100,7 +100,7 @@ def jobs_c01_front(tier, seed):
         pairs, nmax, bmax = [POOL[0], POOL[6], POOL[7]], 6, 4
         sym = [(1, 1, 4), (2, 2, 4)]
     else:
-        pairs, nmax, bmax = POOL, 9, 6
+        pairs, nmax, bmax = POOL, 8, 6
         sym = [(1, 1, 6), (2, 2, 6), (1, 2, 6), (2, 1, 6), (3, 3, 5)]
     for ds, de in pairs:
         for n in range(0, nmax + 1):
@@ -115,7 +115,7 @@ def jobs_c01_front(tier, seed):
 
 
 def jobs_c01(tier, seed):
-    return jobs_c01_front(tier, seed) + props_pipe.c01_pipe_jobs(tier, seed)
+    return props_pipe.c01_pipe_jobs(tier, seed) + jobs_c01_front(tier, seed)
 
 
 def jobs_pipe(prop):
